@@ -159,3 +159,52 @@ Theorem C02_defrag_domain_gran1 : forall c v run o,
 Proof. intros c v run o Hc E R Hi. apply (dop_ok_eff c); auto. apply (reachD_inv c Hc v run R). Qed.
 Print Assumptions C02_defrag_domain_gran1.
 
+(* non-vacuity: two block allocations, the first is freed, a defragmentation run moves the second one from
+   offset 1008 to offset 0 (BeginDefragPass proposes the move, EndDefragPass with MoveOperation copy completes
+   it); the states between and after the calls are reachable *)
+Definition dx0 : vam := Eval vm_compute in
+  match vam_new ex_cfg 4 with OK v => v | _ => mkVam (mkMach [] 0 no_fault 0 Budget.bzero [] [] 0) 0%N [] [] [] 0 1 [] end.
+Definition dx1 := Eval vm_compute in fst (fst (step ex_cfg dx0 (OAlloc 0 1000 16 3 0 0 0 0 0 None) no_fault)).
+Definition dx2 := Eval vm_compute in fst (fst (step ex_cfg dx1 (OAlloc 1 1000 16 3 0 0 0 0 0 None) no_fault)).
+Definition dx3 := Eval vm_compute in fst (fst (step ex_cfg dx2 (OFree 0) no_fault)).
+Definition dd1 := Eval vm_compute in dstep ex_cfg dx3 None (DBegin 0 None 0 0) no_fault.
+Definition dx4 := Eval vm_compute in fst (fst (fst (fst dd1))).
+Definition dr4 := Eval vm_compute in snd (fst (fst (fst dd1))).
+Definition dd2 := Eval vm_compute in dstep ex_cfg dx4 dr4 DPass no_fault.
+Definition dx5 := Eval vm_compute in fst (fst (fst (fst dd2))).
+Definition dr5 := Eval vm_compute in snd (fst (fst (fst dd2))).
+Definition dd3 := Eval vm_compute in dstep ex_cfg dx5 dr5 (DEnd [0]) no_fault.
+Definition dx6 := Eval vm_compute in fst (fst (fst (fst dd3))).
+Definition dr6 := Eval vm_compute in snd (fst (fst (fst dd3))).
+
+Example C02_defrag_nonvacuous :
+  reachD ex_cfg dx5 dr5 /\ reachD ex_cfg dx6 dr6 /\
+  map (fun a => (a_allocated a, a_handle a, a_temp a)) (v_tab dx5) =
+    [(false, 0, false); (true, 1008, false); (false, 0, false); (false, 0, false); (true, 0, true)] /\
+  map (fun a => (a_allocated a, a_handle a, a_temp a)) (v_tab dx6) =
+    [(false, 0, false); (true, 0, false); (false, 0, false); (false, 0, false); (false, 1008, true)].
+Proof.
+  assert (R0 : reachD ex_cfg dx0 None) by (eapply reachD_new with (nslots := 4%nat); vm_compute; reflexivity).
+  assert (R1 : reachD ex_cfg dx1 None).
+  { eapply reachD_step with (r := ROk) (o := OAlloc 0 1000 16 3 0 0 0 0 0 None) (f := no_fault)
+      (calls := snd (step ex_cfg dx0 (OAlloc 0 1000 16 3 0 0 0 0 0 None) no_fault));
+      [exact R0|exact I| |vm_compute; reflexivity|discriminate|discriminate]. vm_compute. split; [discriminate|reflexivity]. }
+  assert (R2 : reachD ex_cfg dx2 None).
+  { eapply reachD_step with (r := ROk) (o := OAlloc 1 1000 16 3 0 0 0 0 0 None) (f := no_fault)
+      (calls := snd (step ex_cfg dx1 (OAlloc 1 1000 16 3 0 0 0 0 0 None) no_fault));
+      [exact R1|exact I| |vm_compute; reflexivity|discriminate|discriminate]. vm_compute. split; [discriminate|reflexivity]. }
+  assert (R3 : reachD ex_cfg dx3 None).
+  { eapply reachD_step with (r := ROk) (o := OFree 0) (f := no_fault) (calls := snd (step ex_cfg dx2 (OFree 0) no_fault));
+      [exact R2|exact I|exact I|vm_compute; reflexivity|discriminate|discriminate]. }
+  assert (R4 : reachD ex_cfg dx4 dr4).
+  { eapply reachD_dstep with (r := ROk) (o := DBegin 0 None 0 0) (f := no_fault) (calls := snd (fst dd1)) (dr := snd dd1);
+      [exact R3|exact I|vm_compute; reflexivity|discriminate|discriminate]. }
+  assert (R5 : reachD ex_cfg dx5 dr5).
+  { eapply reachD_dstep with (r := ROk) (o := DPass) (f := no_fault) (calls := snd (fst dd2)) (dr := snd dd2);
+      [exact R4| |vm_compute; reflexivity|discriminate|discriminate].
+    apply (C02_defrag_domain_gran1 ex_cfg dx4 dr4 DPass ex_cfg_ok eq_refl R4).
+    intros i dc Hn. apply nth_z_in in Hn. vm_compute in Hn. destruct Hn as [<-|[<-|[]]]; reflexivity. }
+  split; [exact R5|]. split; [|split; vm_compute; reflexivity].
+  eapply reachD_dstep with (r := ROk) (o := DEnd [0]) (f := no_fault) (calls := snd (fst dd3)) (dr := snd dd3);
+    [exact R5|exact I|vm_compute; reflexivity|discriminate|discriminate].
+Qed.
